@@ -260,13 +260,13 @@ class Paths(Harness):
                 for k in range(self.HORIZON + 1):
                     g.require(p[k] > 0, "C12.not-positive", f"market {m} time {k}")
             # every generated value continues from a kept value through exp(cumulated log-return)
-            self.check_chain(g, f, mon, allp)
+            self.check_chain(g, f, mon, allp, skip=(0, t) if case["kind"] == "shock" else None)
             # zero volatility: exactly level x exp(drift x steps)
             self.check_zero_vol(g, f, mon, allp, case)
         finally:
             mon.restore()
 
-    def check_chain(self, g, f, mon, allp):
+    def check_chain(self, g, f, mon, allp, skip=None):
         """every value after the regeneration point = kept value x exp(cumulated log-return) of the call that
         generated it (the last call covering that time)."""
         owner = {}
@@ -279,7 +279,7 @@ class Paths(Harness):
                 for j in range(n):
                     owner[x, rec["until"] + 1 + j] = (c, r, j)
         for (x, k), (c, r, j) in sorted(owner.items()):
-            if k > self.HORIZON:
+            if k > self.HORIZON or (x, k) == skip:     # the shocked value itself is checked against level x scale
                 continue
             rec = mon.gens[c]
             csum = sum(rec["logret"][r, l] for l in range(j + 1))
